@@ -54,13 +54,20 @@ def plan(tier):
         "timeout_s": 600 if q else 3600,
         "min_nontrivial": 300 if q else 20000,
         "required_counters": ["S1", "S2", "S3", "S1b", "S4", "I1", "I2", "C1", "C2", "G", "vfwrap_validated",
-                              "op_reg", "op_inv", "op_rel", "op_src", "reg_on_wrapped", "rereg_after_inv"],
+                              "op_reg", "op_inv", "op_rel", "op_src", "reg_on_wrapped", "rereg_after_inv",
+                              "G_inflight", "G_inflight_task_waited", "G_inflight_candidate_changed",
+                              "transfer_real_gated"],
         "rule": "seeded random histories of 3..16 operations (reg x3 : inv : rel x2 : src) over paths "
                 "<base>/x/y/z (x,y,z in {a,b,c}, relative depth 0..3) below 6 bases (plain, mount point, nested mount "
                 "point, their inner directories, second-level mount point) on 1..3 of 7 locations (r1, r2 same "
                 "deployment; x1; local; w1, w2 wrapping r1, r2 with mounts; ww1 wrapping w1); all obligations "
                 "after every operation on all known paths x location filters. distinct = distinct (locations, "
-                "operations); non-trivial = the history contains an invalidation of a registered path.",
+                "operations); non-trivial = the history contains an invalidation of a registered path. "
+                "in-flight copies: 300 (thorough 20000) synthetic cases per shard (1..2 destination records created as "
+                "transfer_data does, PRIMARY and unavailable; 1..4 concurrent get_source_location tasks; per record a "
+                "seeded event stays-PRIMARY / becomes SYMBOLIC_LINK / invalidated (path or parent) before `available` "
+                "is set) + 4 (thorough 40) real transfer_data runs per shard with the copy gated; non-trivial = a task "
+                "was waiting when the events were applied.",
         "exhaustive": False,
         "assumptions": ["alias semantics of invalidation are not judged", "transfers are out of the histories"],
     }
@@ -592,6 +599,30 @@ def judge(sh: Shard, loop, case, sample=False):
     return fail, mech
 
 
+def judge_flight(sh: Shard, loop, case, sample=False):
+    """history class "in-flight copies" (vf/harness/c21_flight.py); every failure is unclassified"""
+    from vf.harness import c21_flight as F
+
+    try:
+        if case["kind"] == "flight":
+            fail, info = loop.run_until_complete(F.run_flight(sh, Env, case, resolve))
+        else:
+            fail, info = loop.run_until_complete(F.run_transfer(sh, Env, case))
+    except Exception as e:
+        fail, info = {"ob": "raised", "exc": type(e).__name__, "tb": short_tb(e, 6)[-700:]}, {"blocked": 0, "changed_while_waited": 0}
+    if info["blocked"]:
+        sh.count("G_inflight_task_waited")
+    if info["changed_while_waited"]:
+        sh.count("G_inflight_candidate_changed", info["changed_while_waited"])
+    sh.case((case["kind"], case), nontrivial=bool(info["blocked"]))
+    if sample:
+        sh.sample({"case": case, "verdict": fail or "every get_source_location task returned a valid PRIMARY member (or None with none)"})
+    if fail:
+        sh.violation(None, f"in-flight copies: obligation {fail['ob']} failed: "
+                           f"{ {k: v for k, v in fail.items() if k != 'ob'} }", {"case": case, "fail": fail})
+    return fail
+
+
 # minimal witnesses of the four listed mechanisms: re-judged by shard 0 on every run (silent once repaired)
 WITNESSES = [
     ("stale-valid-paths", MECH_A, {"kind": "hist", "locs": [0], "ops": [
@@ -617,6 +648,15 @@ def run_shard(sh: Shard) -> None:
             for name, mech, case in WITNESSES:
                 fail, got = judge(sh, loop, case)
                 sh.note("minimal_witness " + name, "reproduced" if got == mech else ("not reproduced" if not fail else f"failed as {got}"))
+        from vf.harness import c21_flight as F
+
+        frng = sh.rng("flight", sh.shard)
+        for i in range(sh.pick(4, 40)):  # real transfer_data with a gated copy
+            judge_flight(sh, loop, F.gen_transfer(frng, i), sample=(i == 0 and sh.shard == 2))
+        for i in range(sh.pick(300, 20000)):  # synthetic in-flight records (floor 150 whatever the budget)
+            if i >= 150 and sh.out_of_budget():
+                break
+            judge_flight(sh, loop, F.gen_flight(frng), sample=(i == 0 and sh.shard == 3))
         rng = sh.rng("hist", sh.shard)
         n = sh.pick(1400, 100000)
         kinds = {}
@@ -648,7 +688,10 @@ def replay(sh: Shard, w: dict) -> None:
     try:
         if not loop.run_until_complete(setup(sh)):
             return
-        judge(sh, loop, w["case"])
+        if w["case"]["kind"] in ("flight", "transfer"):
+            judge_flight(sh, loop, w["case"])
+        else:
+            judge(sh, loop, w["case"])
     finally:
         try:
             loop.run_until_complete(teardown())
